@@ -62,7 +62,58 @@ def compare_fresh(d, shape):
     return [k for k in a if a[k] != b.get(k)]
 
 
+def tied_trunk_stream(ctx):
+    """Several parentless structures with equal peaks (their creation order is not their identifier order): a layout
+    asked for before a prune that removes nothing must still be the layout of a fresh dendrogram afterwards."""
+    from astrodendro import Dendrogram
+    rng = ctx.rng('c14-ties')
+    for it in range(80 if ctx.quick else 800):
+        k = rng.randint(2, 5)
+        peak = rng.randint(3, 9)
+        row = [0]
+        for _ in range(k):
+            w = rng.randint(1, 3)
+            isl = [rng.randint(1, peak - 1) for _ in range(w)]
+            isl[rng.randrange(w)] = peak if rng.random() < 0.8 else rng.randint(1, peak)
+            row += isl + [0]
+        arr = np.array(row, dtype=float)
+        if rng.random() < 0.4:
+            arr = np.vstack([arr, np.zeros_like(arr)])
+        if rng.random() < 0.6:
+            # vertical strips separated by empty columns, the (equal) peaks at different heights: the strip whose peak
+            # comes first in the flattened array is not the one with the smallest pixel index
+            nrow = rng.randint(2, 4)
+            arr = np.zeros((nrow, 2 * k + 1))
+            for j in range(k):
+                col = [rng.randint(1, peak - 1) for _ in range(nrow)]
+                col[rng.randrange(nrow)] = peak
+                arr[:, 2 * j + 1] = col
+        shape = tuple(arr.shape)
+        history = []
+        try:
+            d = Dendrogram.compute(arr, min_value=0)
+            for _ in range(rng.randint(1, 3)):
+                op = rng.choice(['plotter', 'prune-noop', 'newick', 'prune-noop'])
+                history.append(op)
+                if op == 'plotter':
+                    d.plotter()
+                elif op == 'newick':
+                    d.to_newick()
+                else:
+                    d.prune(min_npix=rng.choice([0, 1]))
+            diff = compare_fresh(d, shape)
+        except Exception as e:
+            ctx.oracle_failure({'stream': 'tied trunk peaks', 'data': arr.tolist(), 'history': history}, ['raised %r' % (e,)])
+            continue
+        ctx.count('tied_trunk_histories')
+        ctx.case_done(None, ('tied', tuple(arr.ravel().tolist()), str(history)))
+        if diff:
+            ctx.oracle_failure({'stream': 'tied trunk peaks', 'data': arr.tolist(), 'history': history},
+                               ['after %s the live dendrogram differs from a freshly constructed one in: %s' % (history, diff[:5])])
+
+
 def explore(ctx):
+    tied_trunk_stream(ctx)
     rng = ctx.rng('c14')
     terms, meta = [], []
     tmpdir = tempfile.mkdtemp(prefix='verif-c14-', dir=dc.SCRATCH)
